@@ -16,6 +16,7 @@ use anyhow::Result;
 pub const CODE_MAX: usize = 10;
 pub const NWIN: usize = 4;
 pub const WCAP: usize = 12;
+pub const POOL: usize = 16;
 
 #[derive(Clone, Copy)]
 pub struct Win {
@@ -36,7 +37,7 @@ pub struct Fp {
     pub stray_read: bool,
     pub stray_write: bool,
     pub code_write: bool,
-    pub pool: [u8; 4],
+    pub pool: [u8; POOL],
     pub pool_i: usize,
     pub n_read_err: u32,
     pub n_write_err: u32,
@@ -50,7 +51,7 @@ pub static mut FP: Fp = Fp {
     stray_read: false,
     stray_write: false,
     code_write: false,
-    pool: [0; 4],
+    pool: [0; POOL],
     pool_i: 0,
     n_read_err: 0,
     n_write_err: 0,
@@ -92,7 +93,7 @@ pub fn reset() {
         FP.stray_read = false;
         FP.stray_write = false;
         FP.code_write = false;
-        FP.pool = [0; 4];
+        FP.pool = [0; POOL];
         FP.pool_i = 0;
         FP.n_read_err = 0;
         FP.n_write_err = 0;
@@ -120,7 +121,7 @@ pub fn bus_read_stub(_b: &Bus, addr: u32) -> Result<u8> {
             i += 1;
         }
         FP.stray_read = true;
-        let v = FP.pool[FP.pool_i & 3];
+        let v = FP.pool[FP.pool_i & (POOL - 1)];
         FP.pool_i = FP.pool_i.wrapping_add(1);
         Ok(v)
     }
@@ -216,8 +217,16 @@ pub fn set_window(cpu: &mut Cpu, idx: usize, base: u32, bytes: &[u8]) {
     let _ = cpu;
 }
 
+/// Like `set_window`, with a (possibly symbolic) length `len <= bytes.len()`.
+pub fn set_window_len(cpu: &mut Cpu, idx: usize, base: u32, bytes: &[u8], len: u32) {
+    set_window(cpu, idx, base, bytes);
+    unsafe {
+        FP.win[idx].len = len;
+    }
+}
+
 /// Pool of values returned for reads outside the footprint (drawn in the harness prologue).
-pub fn set_pool(p: [u8; 4]) {
+pub fn set_pool(p: [u8; POOL]) {
     unsafe { FP.pool = p }
 }
 
